@@ -355,8 +355,8 @@ impl Cur<'_> {
     }
 }
 
-const FZ_GTS: [&str; 28] = [
-    "0/0", "0/1", "1/0", "1/1", "0|0", "0|1", "1|0", "1|1", "0/0", "0/1", "1/1", "0|1", "./.", ".|.", "./0", "1/.", ".|1", "0/2", "2/1", "2/2", "3|0", "./2", "10/11", "0/10", "0", "1", "0/0/1",
+const FZ_GTS: [&str; 29] = [
+    "0/0", "0/1", "1/0", "1/1", "0|0", "0|1", "1|0", "1|1", "0/0", "0/1", "1/1", "0|1", "./.", ".|.", "./0", "1/.", ".|1", "0/2", "2/1", "2/2", "3|0", "./2", "10/11", "0/10", "0", "1", ".", "0/0/1",
     "0|1|1|1",
 ];
 
@@ -401,7 +401,7 @@ pub fn decode_callset(data: &[u8]) -> (crate::gen::callset::CallSet, crate::gen:
                     *a = (*a).min(n_alt as u64);
                 }
                 // non-diploid genotypes in selected samples only in one record out of sixteen
-                if selected[i] && g.alleles.len() != 2 && step % 16 != 15 {
+                if selected[i] && g.class() == crate::gen::callset::GtClass::NotDiploid && step % 16 != 15 {
                     g = Gt::diploid(Some(0), Some(0), false);
                 }
                 g
